@@ -327,7 +327,7 @@ class Ctx:
         cmd = ["cbmc", gb, "--function", "harness", "--json-ui", "--verbosity", "8",
                "--unwinding-assertions", "--drop-unused-functions",
                "--no-malloc-may-fail", "--signed-overflow-check",
-               "--undefined-shift-check", "--object-bits", "12", "--conversion-check" if False else "--div-by-zero-check"]
+               "--undefined-shift-check", "--object-bits", "12", "--max-field-sensitivity-array-size", "256", "--conversion-check" if False else "--div-by-zero-check"]
         if q.unwind is not None:
             cmd += ["--unwind", str(q.unwind)]
         uw = list(q.unwindset) + self.resolve_unwind_rules(q, gb)
